@@ -119,7 +119,7 @@ SkipTags ==
   LET p  == IF phase \in Timed THEN StepOf(phase) ELSE <<0, 0>>
       d  == acc' - acc
   IN   (IF phase' # phase THEN {<<"C02", "phase-order">>} ELSE {})
-  \cup (IF phase \in Timed /\ Upper(p) < M /\ (d < Lower(p) * e.n \/ d > Upper(p) * e.n) THEN {<<"C02", "increment">>} ELSE {})
+  \cup (IF phase \in Timed /\ Upper(p) < M /\ (d \div e.n < Lower(p) \/ (d + e.n - 1) \div e.n > Upper(p)) THEN {<<"C02", "increment">>} ELSE {})
   \cup (IF phase \in Timed /\ phase' = phase /\ d <= 0 THEN {<<"C17", "no-progress">>} ELSE {})
   \cup RangeTags
   \cup (IF cont /\ phase = "attack" /\ e.k < lastK THEN {<<"C01", "attack-not-monotone">>} ELSE {})
